@@ -16,7 +16,7 @@ SPEC = {
                  'unchanged or leaves the chunk in a canonical state of the same inputs',
     'bounds': {'quick': 'accepted tables of <= 2 hits of one ceilometer (two slices that may merge into one group) x 4 states x '
                         '10 operations; call sequences of any length by induction',
-               'thorough': 'tables of <= 2 hits on 2 ceilometers, 3 hits on one; SGL state with a split 30-hit group'},
+               'thorough': 'tables of <= 2 hits on <= 2 ceilometers'},
     'outside': 'tables beyond the row bound; the column "isolated" of the slices table after re-slicing (known finding D7)',
     'budget_s': {'quick': 1200, 'thorough': 3600},
 }
@@ -103,7 +103,7 @@ def _sizes(ncs):
 
 
 HARNESSES = [
-    H('H-step', h_step, quick=_sizes([(2, 1)]), thorough=_sizes([(1, 1), (2, 1), (2, 2), (3, 1)]), float_model='R',
+    H('H-step', h_step, quick=_sizes([(2, 1)]), thorough=_sizes([(1, 1), (2, 1), (2, 2)]), float_model='R',
       cover=['refused', 'accepted', 'two slices merged into one group'], scripted=True,
       assumptions=['utils.check_data_consistency replaced by a stand-in on the accepted table (C15); hit type fixed to 1'],
       doc='one operation from each canonical state: AmpycloudError + unchanged, or canonical state of the same inputs; by '
